@@ -5,7 +5,16 @@ def rcbin(pid, **kw):
     return d
 
 CALNOTE = ['refcal (128-bit era algorithm) is the calendar oracle; validated at setup against glibc timegm/gmtime_r and its own inverse laws']
+ZONENOTE = CALNOTE + ['zonemodel (independent RFC 9636 reader + POSIX rule evaluator); validated at setup against glibc localtime_r/zdump',
+            'domain W of synthetic zones as defined in DESIGN.md section 3.3']
 CHECKS = {
+    'C01': {
+        'bins': [rcbin('C01')],
+        'shards': {'quick': 12, 'thorough': 16},
+        'time_limit': {'quick': 900, 'thorough': 5400},
+        'prepare': 'zic',
+        'assumptions': ZONENOTE,
+    },
     'C04': {
         'bins': [rcbin('C04')],
         'shards': {'quick': 8, 'thorough': 16},
